@@ -108,6 +108,57 @@ structure MethF where
 
 def methF (sk : List Stmt) : MethF := ⟨waitOf sk, notifsOf sk⟩
 
+/-! ### the mutex and its condition variables -/
+
+/-- mutex owner, the wait-sets of (up to) two conditions, the scheduler's decision list -/
+structure Mon where
+  owner : Option Nat
+  ne : WS
+  nf : WS
+  sched : List Nat
+
+namespace Mon
+
+def ws (m : Mon) : Cond → WS
+  | .notEmpty => m.ne
+  | .notFull => m.nf
+
+def setWs (m : Mon) (c : Cond) (w : WS) : Mon :=
+  match c with
+  | .notEmpty => { m with ne := w }
+  | .notFull => { m with nf := w }
+
+/-- `c.notify()` / `c.notifyAll()`; a `notify` with two or more unsignalled waiters takes the pick
+from the decision list -/
+def notify (m : Mon) (f : NotF) : Mon :=
+  if f.all then m.setWs f.cond (m.ws f.cond).all
+  else if 2 ≤ (m.ws f.cond).W.length then
+    { m.setWs f.cond ((m.ws f.cond).one (m.sched.headD 0)) with sched := m.sched.tail }
+  else m.setWs f.cond ((m.ws f.cond).one 0)
+
+def notifs (m : Mon) (fs : List NotF) : Mon := fs.foldl notify m
+
+/-- `wait()`: release the mutex and enter the wait-set -/
+def parkOn (m : Mon) (c : Cond) (t : Nat) : Mon :=
+  { m.setWs c ((m.ws c).park t) with owner := none }
+
+/-- `t` holds the mutex and executes `[while|if] (g) c.wait();`.  Result: `(true, m')` = go on with
+the statements behind the wait; `(false, m')` = parked.  A thread found in `S` is returning from
+`wait()`: it leaves `S` and re-tests `g` only when the wait sits in a `while`. -/
+def enter (m : Mon) (t : Nat) (w : Option WaitF) (g : Bool) : Bool × Mon :=
+  match w with
+  | none => (true, m)
+  | some w =>
+    if t ∈ (m.ws w.cond).S then
+      if w.loop = true ∧ g = true then (false, (m.setWs w.cond ((m.ws w.cond).wake t)).parkOn w.cond t)
+      else (true, m.setWs w.cond ((m.ws w.cond).wake t))
+    else if g = true then (false, m.parkOn w.cond t)
+    else (true, m)
+
+def init (sched : List Nat) : Mon := { owner := none, ne := {}, nf := {}, sched := sched }
+
+end Mon
+
 /-! ### BlockingQueue / BoundedBlockingQueue -/
 
 inductive QOp where
@@ -129,16 +180,12 @@ structure QEv where
   res : QRes
   deriving DecidableEq, Repr
 
-structure QState where
+structure QState extends Mon where
   /-- `none`: BlockingQueue; `some c`: BoundedBlockingQueue of capacity `c` -/
   cap : Option Nat
   /-- `queue_`, front first; each element with the thread that put it (ghost) -/
   q : List (Nat × Nat)
-  owner : Option Nat
   prog : Nat → List QOp
-  ne : WS
-  nf : WS
-  sched : List Nat
   log : List QEv
 
 /-- `put(const T&)` for even values, `put(T&&)` for odd ones (what the harness calls) -/
@@ -161,41 +208,17 @@ def takeGuard (cap : Option Nat) (size : Nat) : Bool :=
 
 namespace QState
 
-def ws (s : QState) : Cond → WS
-  | .notEmpty => s.ne
-  | .notFull => s.nf
-
-def setWs (s : QState) (c : Cond) (w : WS) : QState :=
-  match c with
-  | .notEmpty => { s with ne := w }
-  | .notFull => { s with nf := w }
-
-def notify (s : QState) (f : NotF) : QState :=
-  if f.all then s.setWs f.cond (s.ws f.cond).all
-  else if 2 ≤ (s.ws f.cond).W.length then
-    { s.setWs f.cond ((s.ws f.cond).one (s.sched.headD 0)) with sched := s.sched.tail }
-  else s.setWs f.cond ((s.ws f.cond).one 0)
-
-def notifs (s : QState) (fs : List NotF) : QState := fs.foldl notify s
+def notifs (s : QState) (fs : List NotF) : QState := { s with toMon := s.toMon.notifs fs }
 
 /-- the operation is complete: unlock, log, go on to the next operation -/
 def fin (s : QState) (t : Nat) (op : QOp) (rest : List QOp) (r : QRes) : QState :=
   { s with owner := none, prog := upd s.prog t rest, log := s.log ++ [⟨t, op, r⟩] }
 
-/-- `wait()`: release the mutex and enter the wait-set -/
-def parkOn (s : QState) (c : Cond) (t : Nat) : QState :=
-  { s.setWs c ((s.ws c).park t) with owner := none }
-
 /-- lock held by `t`; `[while|if] (g) c.wait();` then `eff` -/
 def enter (s : QState) (t : Nat) (w : Option WaitF) (g : Bool) (eff : QState → QState) : QState :=
-  match w with
-  | none => eff s
-  | some w =>
-    if t ∈ (s.ws w.cond).S then
-      if w.loop = true ∧ g = true then (s.setWs w.cond ((s.ws w.cond).wake t)).parkOn w.cond t
-      else eff (s.setWs w.cond ((s.ws w.cond).wake t))
-    else if g = true then s.parkOn w.cond t
-    else eff s
+  match s.toMon.enter t w g with
+  | (true, m) => eff { s with toMon := m }
+  | (false, m) => { s with toMon := m }
 
 def bounded (s : QState) : Bool := s.cap.isSome
 
@@ -209,7 +232,9 @@ def execOp (s : QState) (t : Nat) (op : QOp) (rest : List QOp) : QState :=
       match s1.q with
       | [] => s1.fin t op rest .abort
       | x :: q' => (({ s1 with q := q' } : QState).notifs (methF (takeSkel s.bounded)).notifs).fin t op rest (.took x.1 x.2)
-  | .drain => ({ s with q := [] } : QState).fin t op rest (.drained s.q)
+  | .drain =>
+    -- BoundedBlockingQueue has no `drain`
+    if s.bounded then s.fin t op rest .abort else ({ s with q := [] } : QState).fin t op rest (.drained s.q)
   | .size => s.fin t op rest (.val s.q.length)
   | .empty => s.fin t op rest (.val (if s.q.isEmpty then 1 else 0))
   | .full => s.fin t op rest (.val (if s.q.length = s.cap.getD 0 then 1 else 0))
@@ -234,10 +259,10 @@ def qstep (s : QState) : Act → Option QState
       | op :: rest => some (s.execOp t op rest)
     else none
   | .spur t c =>
-    if t ∈ (s.ws c).W then some (s.setWs c ((s.ws c).spur t)) else none
+    if t ∈ (s.ws c).W then some { s with toMon := s.toMon.setWs c ((s.ws c).spur t) } else none
 
 def qinit (cap : Option Nat) (prog : Nat → List QOp) (sched : List Nat) : QState :=
-  { cap := cap, q := [], owner := none, prog := prog, ne := {}, nf := {}, sched := sched, log := [] }
+  { toMon := Mon.init sched, cap := cap, q := [], prog := prog, log := [] }
 
 /-- reachable from `s0` -/
 inductive QReach (s0 : QState) : QState → Prop where
@@ -260,37 +285,22 @@ structure LEv where
   count : Int
   deriving DecidableEq, Repr
 
-structure LState where
+structure LState extends Mon where
   count : Int
-  owner : Option Nat
   prog : Nat → List LOp
-  c : WS
-  sched : List Nat
   log : List LEv
 
 namespace LState
 
-def notify (s : LState) (f : NotF) : LState :=
-  if f.all then { s with c := s.c.all }
-  else if 2 ≤ s.c.W.length then { s with c := s.c.one (s.sched.headD 0), sched := s.sched.tail }
-  else { s with c := s.c.one 0 }
-
-def notifs (s : LState) (fs : List NotF) : LState := fs.foldl notify s
+def notifs (s : LState) (fs : List NotF) : LState := { s with toMon := s.toMon.notifs fs }
 
 def fin (s : LState) (t : Nat) (op : LOp) (rest : List LOp) : LState :=
   { s with owner := none, prog := upd s.prog t rest, log := s.log ++ [⟨t, op, s.count⟩] }
 
-def parkOn (s : LState) (t : Nat) : LState := { s with c := s.c.park t, owner := none }
-
 def enter (s : LState) (t : Nat) (w : Option WaitF) (g : Bool) (eff : LState → LState) : LState :=
-  match w with
-  | none => eff s
-  | some w =>
-    if t ∈ s.c.S then
-      if w.loop = true ∧ g = true then ({ s with c := s.c.wake t } : LState).parkOn t
-      else eff { s with c := s.c.wake t }
-    else if g = true then s.parkOn t
-    else eff s
+  match s.toMon.enter t w g with
+  | (true, m) => eff { s with toMon := m }
+  | (false, m) => { s with toMon := m }
 
 def execOp (s : LState) (t : Nat) (op : LOp) (rest : List LOp) : LState :=
   match op with
@@ -305,18 +315,18 @@ end LState
 
 def lstep (s : LState) : Act → Option LState
   | .acq t =>
-    if s.owner = none ∧ s.prog t ≠ [] ∧ t ∉ s.c.W then some { s with owner := some t } else none
+    if s.owner = none ∧ s.prog t ≠ [] ∧ t ∉ s.ne.W ∧ t ∉ s.nf.W then some { s with owner := some t } else none
   | .body t =>
     if s.owner = some t then
       match s.prog t with
       | [] => some { s with owner := none }
       | op :: rest => some (s.execOp t op rest)
     else none
-  | .spur t _ =>
-    if t ∈ s.c.W then some { s with c := s.c.spur t } else none
+  | .spur t c =>
+    if t ∈ (s.ws c).W then some { s with toMon := s.toMon.setWs c ((s.ws c).spur t) } else none
 
 def linit (count : Int) (prog : Nat → List LOp) (sched : List Nat) : LState :=
-  { count := count, owner := none, prog := prog, c := {}, sched := sched, log := [] }
+  { toMon := Mon.init sched, count := count, prog := prog, log := [] }
 
 inductive LReach (s0 : LState) : LState → Prop where
   | refl : LReach s0 s0
